@@ -246,7 +246,7 @@ pub const JSON_KEYS: &[&str] = &[
     "with space", " lead", "trail ", "foo-bar", "-x", "foo.bar", ".", "..", "1abc", "123", "0", "",
     "a\"b", "\"", "back\\slash", "\\", "new\nline", "tab\there", "cr\rx", "$x", "@base64", "[0]", "a[0]", "a,b", "a:b",
     "{", "}", "x'y", "a|b", "a/b", "#c", "?", "a?", "\u{e9}", "caf\u{e9}", "na\u{ef}ve", "\u{65e5}\u{672c}", "\u{3ba}\u{3bb}",
-    "a\u{663}", "\u{663}a", "\u{2167}", "\u{1F600}", "a\u{1F600}", "\u{df}9", "a\u{300}", "\u{aa}", "\u{2160}x", "x\u{b2}",
+    "a-", "x--y", "a\u{663}", "\u{663}a", "\u{2167}", "\u{1F600}", "a\u{1F600}", "\u{df}9", "a\u{300}", "\u{aa}", "\u{2160}x", "x\u{b2}",
 ];
 
 pub const JSON_STRS: &[&str] = &[
@@ -458,7 +458,7 @@ pub fn self_check_json(text: &[u8], t: &T) -> Result<(), String> {
 
 pub const YAML_KEYS: &[&str] = &[
     "a", "b", "c", "id", "name", "foo", "_x", "foo_bar1", "X9", "if", "and", "or", "not", "then", "end", "null", "true", "false",
-    "with space", "foo-bar", "foo.bar", "a-b-c", "1abc", "123", "", "a\"b", "x'y", "back\\slash", "tab\there", "\u{e9}", "caf\u{e9}",
+    "with space", "foo-bar", "foo.bar", "a-b-c", "a-", "x--y", "1abc", "123", "", "a\"b", "x'y", "back\\slash", "tab\there", "\u{e9}", "caf\u{e9}",
     "\u{65e5}\u{672c}", "a\u{663}", "\u{1F600}", "k:v", "k: v", "#c", "a #b", "[0]", "{", "-", "- x", "~", "yes", "No",
 ];
 
